@@ -2,6 +2,7 @@ import JmesVerif.Props.C03
 import JmesVerif.Lemmas.Paren
 import JmesVerif.Lemmas.ParenLegal
 import JmesVerif.Generated.Lbp
+import JmesVerif.Generated.Vocab
 /-!
 # C04 — operators bind by the documented precedence; projections extend as specified
 
@@ -123,6 +124,27 @@ example : (Expr.mk (.field "a") [.or (.mk (.field "b") []), .or (.mk (.field "c"
 example : ¬ (Expr.mk (.field "a") [.or (.mk (.field "b") [.or (.mk (.field "c") [])])]).Legal 0 := by
   simp [Expr.Legal, Nud.Legal, chain, Led.Legal, Led.lbp, Led.follow, Expr.follow, ledsFollow, Nud.follow, INF, callDevOk, Led.isCallDev]
 
+
+/-! ### the public AST / token / comparator vocabulary (ast.rs:25-171, lexer.rs:19, ast.rs:190)
+
+`Generated/Vocab.lean` is re-extracted from the `pub enum` definitions on every run; its functions
+`astVariant`, `tokenVariant`, `comparatorVariant` match on the *model's* inductive types with one arm
+per Rust variant and one `_` per field, so they elaborate only while the model types have exactly the
+variants and arities of the source.  The theorem pins the variant lists to the documented ones and
+states that every model node is one of them. -/
+theorem C04_ast_vocabulary :
+    Generated.astFields.map (·.1) =
+      ["Comparison", "Condition", "Identity", "Expref", "Flatten", "Function", "Field", "Index", "Literal",
+       "MultiList", "MultiHash", "Not", "Projection", "ObjectValues", "And", "Or", "Slice", "Subexpr"]
+    ∧ (∀ a : Ast, Generated.astVariant a ∈ Generated.astFields.map (·.1))
+    ∧ (∀ c : Cmp, Generated.comparatorVariant c ∈ Generated.comparatorFields.map (·.1))
+    ∧ (∀ t : Tok, Generated.tokenVariant t ∈ Generated.tokenFields.map (·.1))
+    ∧ Generated.astFields.all (fun p => p.2.head? == some "offset") = true := by
+  refine ⟨rfl, ?_, ?_, ?_, by decide⟩
+  · intro a; cases a <;> simp [Generated.astVariant, Generated.astFields]
+  · intro c; cases c <;> simp [Generated.comparatorVariant, Generated.comparatorFields]
+  · intro t; cases t <;> simp [Generated.tokenVariant, Generated.tokenFields]
+
 end JmesVerif
 
 #print axioms JmesVerif.C04_lbp_table
@@ -134,3 +156,4 @@ end JmesVerif
 #print axioms JmesVerif.C04_projection_stop
 #print axioms JmesVerif.C04_paren_invariance
 #print axioms JmesVerif.C04_paren_legal
+#print axioms JmesVerif.C04_ast_vocabulary
